@@ -141,6 +141,10 @@ class C10(Prop):
     def judge(self, c, impl, mod):
         j = Judgement()
         j.key = repr((c['param'], c['equity'], c['fee'], c['prices'], c['weights']))
+        ssum = sum(Fraction(x) for _, x in c['weights'])
+        if 0 < abs(abs(ssum) - ATOL) < ATOL / 10**6:
+            j.knife += 1          # the weight sum sits on the np.isclose threshold: float and exact sums may land on different sides
+            return j
         compare_sizer(c, impl, mod, j, lo_knife(c))
         out = j.failures
         w = [(a, Fraction(x)) for a, x in c['weights']]
